@@ -18,6 +18,17 @@ Proof      : coq/Props/C06.v over Model/GCRace.v: for every interleaving of coll
              run (Table.garbage_collect announces a run before it loads the markers; adoption is refused while one is
              announced) -- repair ae2d4aa; adoption as the code did it before (no marker, no handshake) refutes the
              statement (C06_unmarked_adoption_refuted: the counter-run, 4 ms against a grace period of 1 h).
+             The TRANSACTION's side of that contract -- a file is published only while its marker is in place -- is the
+             marker LEDGER of one transaction (Model/TxMarkers.v): written files, ADOPTED pre-built files, the manifests of the
+             attempt in progress, through any number of commit attempts that LOSE the OCC race and are retried; at every step
+             up to and including the pointer flip the transaction holds a marker for every file it is going to publish
+             (C06_tx_markers_cover_payload, by induction over the history) -- stated over kernels REGENERATED from transaction.py
+             (translator/gen_txmarkers.py -> Gen/GenTxMarkers.v: which methods grow / drop self._inflight_markers, which methods
+             are reachable from the RETRY arm of commit's conflict handler, registration before write / before queueing);
+             C06_tx_markers_cover_payload_kernels is the statement for any kernels that protect and do not drop on retry, and
+             C06_dropping_retry_refuted shows the condition is necessary (a retry arm that drops publishes an unmarked file), and
+             C06_dropped_marker_loses_file what that costs on the collector x transactions machine (Model/GCRaceDrop.v: an adopted
+             file 10 h old, its marker dropped by the lost attempt, is deleted by a 4 ms run before the retry publishes it).
 Tie        : the real GarbageCollector.collect runs as an actor under the scheduler against real transactions on the
              local backend in VIRTUAL time (time.time in the collector, datetime in the library, and file modification
              times all come from the scheduler clock, so 'five hours pass' is one schedule event); the storage log is
@@ -33,7 +44,10 @@ Oracle     : at the end every file referenced by every retained snapshot exists 
              data file / manifest / manifest list) with a collection run inside the gap and a second one later,
              transactions beyond the abandonment window (traced against the model, not judged), random two-run
              interleavings with four clock jumps; transactions that ADOPT a pre-built file ten hours old
-             (append_files + commit) at every point of a collection run.  An adoption that append_files refuses (run in
+             (append_files + commit) at every point of a collection run; CONTENTION (directed_contended): a transaction of any
+             kind -- appending, ADOPTING a 10 h old pre-built file, or both in one transaction -- loses the OCC race to another
+             writer and retries, with the collector's steps placed between every two steps of the lost attempt and of the whole
+             retry (j steps of the committer, k of the collector, m of the committer, rest).  An adoption that append_files refuses (run in
              progress, or the orphan was already collected) is an accepted outcome: nothing references the file.
 """
 from __future__ import annotations
@@ -48,8 +62,11 @@ from harness.props import c01
 
 LEVEL = "proof"
 THEOREMS = ["C06_gc_race_safe", "C06_swept_only_abandoned", "C06_unswept_marker_kept", "C06_marker_kernel", "C06_delete_kernel",
-            "C06_unmarked_adoption_refuted"]
+            "C06_unmarked_adoption_refuted",
+            "C06_tx_markers_cover_payload", "C06_tx_markers_cover_payload_kernels", "C06_dropping_retry_refuted",
+            "C06_dropped_marker_loses_file"]
 REQ = ["DS.Model.GCRace"]
+REQ_LEDGER = ["DS.Gen.GenTxMarkers", "DS.Model.TxMarkers"]
 MANIFEST_ENTRY = {
     "level_text": "C06_gc_race_safe proved in Coq by an inductive invariant over every interleaving of collector steps, "
                   "transaction steps on any number of marker-protected files (data files, manifests, manifest lists; slow writes: "
@@ -59,15 +76,21 @@ MANIFEST_ENTRY = {
                   "is announced; C06_unmarked_adoption_refuted: the unrepaired adoption violates the statement); C06_swept_only_abandoned / C06_unswept_marker_kept: a marker is deleted by the collector "
                   "only when older than the abandonment timeout and stays in place until then; the collector's marker-age and "
                   "deletion kernels are regenerated from garbage_collector.py (GenGCRace.v) and the proofs are stated over them; "
+                  "C06_tx_markers_cover_payload: the marker ledger of one transaction (written + adopted files + manifests of the attempt "
+                  "in progress, any number of lost OCC attempts and retries) covers everything it is going to publish at every step up to "
+                  "the flip, over kernels regenerated from transaction.py (GenTxMarkers.v: who grows / drops the marker list, what the "
+                  "retry arm of commit reaches); C06_dropping_retry_refuted: a retry arm that drops markers publishes an unmarked file; "
                   "the real collector and real transactions run under the deterministic scheduler in virtual time and their "
                   "storage log must be accepted by the model's strict run (markers before metadata; marker deletions only as the "
                   "regenerated kernel allows); an implementation-only oracle re-reads every retained snapshot",
-    "level_note": "trusted: Coq kernel; translator/gen_gcrace.py (fail-closed); scheduler harness with virtual clock and virtual "
+    "level_note": "trusted: Coq kernel; translator/gen_gcrace.py, translator/gen_txmarkers.py (fail-closed; the latter classifies uses of "
+                  "self._inflight_markers syntactically and over-approximates reachability by every self.<method> mentioned); scheduler harness with virtual clock and virtual "
                   "modification times; transactions younger than the 24 h abandonment window (older ones are traced against the "
                   "model but not judged: the code deliberately stops protecting them)",
     "technique": "Coq invariant proof over a collector x transactions machine stated over regenerated collector kernels + "
                  "scheduled trace validation in virtual time (clock jumps at every point of a transaction, two collection runs, "
-                 "adoption of old pre-built files at every point of a run)",
+                 "adoption of old pre-built files at every point of a run; adopting / writing+adopting committers that lose the OCC race, "
+                 "collector at every step of the retry) + per-transaction marker-ledger trace validation",
     "design_ref": "DESIGN.md section 5 C06",
 }
 
@@ -76,6 +99,7 @@ ABANDON_MS = 24 * 3600 * 1000        # the documented abandonment window of in-f
 COLLECTING = "metadata/collecting"   # announcements of collection runs in progress
 STAGED_AGE_MS = 10 * 3600 * 1000     # age of a pre-built file when the schedule starts (older than every grace period used)
 FIELDS = [{"id": 1, "name": "x", "type": "long", "required": False}]
+ADOPTING = ("adopt", "mixed")        # transaction kinds that adopt a pre-built file (append_files)
 
 
 def yield_filter(op: str, path: str, phase: tuple) -> bool:
@@ -173,7 +197,7 @@ def run_case(ctx, txns: List[Dict[str, Any]], chooser_factory, age_jump: int, se
             staged: Dict[str, Dict[str, Any]] = {}
             first = sorted(os.listdir(os.path.join(root, "data")))[0]
             for i, spec in enumerate(txns):
-                if spec["kind"] == "adopt":
+                if spec["kind"] in ADOPTING:
                     name = f"prebuilt_{i}.parquet"
                     shutil.copy(os.path.join(root, "data", first), os.path.join(root, "data", name))
                     vmtime[f"data/{name}"] = (sc.clock_ms - STAGED_AGE_MS) / 1000.0
@@ -196,6 +220,16 @@ def run_case(ctx, txns: List[Dict[str, Any]], chooser_factory, age_jump: int, se
                         name = f"prebuilt_{i}.parquet"
                         t.append_data([DataFile(file_path=f"/data/{name}", file_format=FileFormat.PARQUET, partition_values={},
                                                 record_count=1, file_size_in_bytes=staged[name]["size"])])
+                        return "ok"
+                    if spec["kind"] == "mixed":
+                        # one transaction that WRITES a data file of its own and ADOPTS a pre-built one
+                        from datashard.data_structures import DataFile, FileFormat
+                        name = f"prebuilt_{i}.parquet"
+                        with t.new_transaction() as tx:
+                            tx.append_data(spec["rows"])
+                            tx.append_files([DataFile(file_path=f"/data/{name}", file_format=FileFormat.PARQUET, partition_values={},
+                                                      record_count=1, file_size_in_bytes=staged[name]["size"])])
+                            tx.commit()
                         return "ok"
                     tx = t.new_transaction().begin()
                     tx.append_data(spec["rows"])
@@ -301,7 +335,7 @@ def oracle(out: Dict[str, Any]) -> Optional[str]:
         return f"files referenced by retained snapshots were deleted by the collector: {out['final']['missing'][:3]}"
     for n, (st, d) in out["outcomes"].items():
         if st != "ok" and not (out.get("delayed_flip") and n == "A0" and "AmbiguousCommitError" in d):
-            if out.get("kinds", {}).get(n) == "adopt" and d.split(":")[0] in ("CollectionInProgressError", "FileNotFoundError") \
+            if out.get("kinds", {}).get(n) in ADOPTING and d.split(":")[0] in ("CollectionInProgressError", "FileNotFoundError") \
                     and not any(e["actor"] == n and "Transaction.commit" in e["phase"] for e in out["log"]):
                 # append_files REFUSED the pre-built file before anything was queued: a collection run was in progress, or an
                 # earlier run had collected the (unreferenced, unmarked, old) file as the orphan it was.  Nothing references it.
@@ -462,6 +496,93 @@ def project(out: Dict[str, Any], ntx: int) -> Tuple[List[str], Optional[str], in
     return evs, None, len(fid)
 
 
+def project_ledger(out: Dict[str, Any], actor: str) -> Tuple[List[str], Optional[str], Dict[str, Any]]:
+    """One transaction's storage log as events of its marker LEDGER (Model/TxMarkers.v), the reason the log is non-conforming
+    (a marker handled in a way the ledger has no event for), and what the log itself says about the transaction: how many
+    commit attempts it lost, which markers it held when the pointer write took effect, which it holds at the end."""
+    evs: List[str] = []
+    fid: Dict[str, int] = {}
+    held: List[str] = []                      # markers this transaction wrote and has not removed (by name of the protected file)
+    in_attempt = progressed = False           # an attempt has read its base / has gone on into _commit_file_ops
+    flipped = False
+    ended: Optional[str] = None
+    at_flip: Optional[List[str]] = None
+    pending_adopt: List[str] = []             # markers registered by _protect_adopted_files, outcome not yet known
+
+    def settle(accepted: bool) -> None:
+        for nm in pending_adopt:
+            evs.append(f"{'XAdopt' if accepted else 'XRefuse'} {fid[nm]}%nat")
+        pending_adopt.clear()
+
+    for e in out["log"]:
+        if e["actor"] != actor:
+            continue
+        op, path, phase = e["op"], e["path"], e["phase"]
+        pcs = P.path_class(path)
+        base = path.rsplit("/", 1)[-1]
+        name = base[:-len(".inflight")] if base.endswith(".inflight") else base
+        if "Transaction._commit_file_ops" in phase:
+            progressed = True
+        if op == "write_file" and pcs == "marker" and e["result"] == "ok":
+            if name not in fid:
+                fid[name] = len(fid)
+            if name not in held:
+                held.append(name)
+            if "Transaction._protect_adopted_files" in phase:
+                pending_adopt.append(name)
+            elif "Transaction._commit_file_ops" in phase:
+                evs.append(f"XAttempt {fid[name]}%nat")
+            elif "Transaction.append_data" in phase:
+                evs.append(f"XWrite {fid[name]}%nat")
+            else:
+                return evs, f"{actor} registered the marker {base} in {phase[-2:] if phase else '?'}: not a step of the ledger", {}
+        elif op == "delete_file" and pcs == "marker" and e["result"] == "ok":
+            if "Transaction._protect_adopted_files" in phase:
+                if name in pending_adopt:
+                    pending_adopt.remove(name)
+                    evs.append(f"XRefuse {fid[name]}%nat")
+                    held.remove(name)
+                    continue
+                return evs, f"{actor}: a refused adoption removed the marker {base}, which it had not registered itself", {}
+            if "Transaction._finish_committed" in phase:
+                if ended is None:
+                    settle(True)
+                    ended = "finish"
+                    evs.append("XFinish")
+            elif "Transaction._rollback" in phase:
+                if ended is None:
+                    settle(True)
+                    ended = "rollback"
+                    evs.append("XRollback")
+            else:
+                return evs, (f"{actor} removed the in-flight marker {base} in {phase[-1] if phase else '?'} -- neither the end of the "
+                             f"transaction nor a refused adoption: the ledger has no such step"), {}
+            if name in held:
+                held.remove(name)
+        elif op == "read_file" and pcs == "hint" and "Transaction.commit" in phase and "Transaction._commit_file_ops" not in phase:
+            settle(True)
+            if in_attempt and progressed and not flipped:
+                evs.append("XConflict")         # a new base is read although the attempt in progress did not commit: it lost the race
+            in_attempt, progressed = True, False
+        elif op == "write_file" and pcs == "hint" and e["result"] == "ok" and "Transaction.commit" in phase:
+            settle(True)
+            flipped = True
+            at_flip = list(held)
+            evs.append("XCommit")
+    if pending_adopt:
+        settle(ended is None and not any(o == actor and st != "ok" for o, (st, _d) in out["outcomes"].items()))
+    obs = {"lost": evs.count("XConflict"), "held_at_flip": None if at_flip is None else len(at_flip), "held_at_end": len(held),
+           "flipped": flipped, "ended": ended}
+    return evs, None, obs
+
+
+def ledger_expr(evs: List[str]) -> str:
+    return (f"match xrun_strict gen_xkernels xinit [{'; '.join(evs)}] 0%nat with "
+            f"| inl s => (1, (Z.of_nat (x_lost s), (Z.of_nat (List.length (x_markers s)), (Z.of_nat (List.length (x_bare s)), "
+            f"match x_phase s with XOpen => 0 | XFlipped => 1 | XDone => 2 | XRolled => 3 end)))) "
+            f"| inr i => (0, (Z.of_nat i, (0, (0, 0)))) end")
+
+
 def model_expr(evs: List[str], nfiles: int) -> str:
     return (f"match grun_strict (ginit [(0%nat, -1000000)]) [{'; '.join(evs)}] 0%nat with "
             f"| inl w => (1, (Z.of_nat (List.length (g_deleted w)), map (fun t => if g_present w t then 1 else 0) (seq 0%nat {nfiles}%nat))) "
@@ -541,11 +662,47 @@ def directed_retry(ctx, txns, quick: bool):
     na = sum(1 for a in probe["schedule"] if a == "A0") - i + 16      # the rest of the commit + a retry
     ng = sum(1 for a in probe["schedule"] if a == "G")
     combos = [(j, k) for j in range(0, na) for k in range(1, ng + 1)]
-    if quick and len(combos) > 120:
-        combos = ctx.rng.sample(combos, 120)
+    if quick and len(combos) > 90:
+        combos = ctx.rng.sample(combos, 90)       # (directed_contended covers the same window with a third parameter)
     for j, k in combos:
         seg = [("A0", i), ("K", 10**6), ("A1", 10**6), ("A0", j), ("G", k), ("A0", 10**6), ("G", 10**6)]
         yield [("segments", seg)], run_case(ctx, txns, segment_chooser(seg), 5000)
+
+
+def directed_contended(ctx, txns, quick: bool, cap: int = 60):
+    """CONTENTION x any kind of committer x a collector at every step of the retry.  Transaction 0 (of any kind: it writes
+    its own file, ADOPTS a pre-built file older than every grace period, or both) has read its base; time passes; transaction 1
+    commits first, so 0's attempt loses the OCC race and is retried internally; 0 runs j more steps (through the lost attempt
+    and through the WHOLE retry), the collector runs k steps, 0 runs m more steps, the collector finishes, 0 finishes -- for
+    all j, k, m: the collector's marker load, metadata read, listings and deletions fall between every two steps of the
+    retrying committer, and the committer's steps between every two of the collector's.  Whatever the transaction holds when
+    its attempt is lost -- markers of files it wrote, of files it adopted, of the manifests of the lost attempt -- must
+    protect every file the retry finally publishes.  The oracle is the property's own (final table re-read)."""
+    jumps = [5000, 5000]
+    probe = run_case(ctx, txns, segment_chooser([("A0", 10**6), ("A1", 10**6), ("K", 10**6), ("G", 10**6)]), 0, jumps=jumps)
+    a0 = [e for e in probe["log"] if e["actor"] == "A0"]
+    begin = next((n for n, e in enumerate(a0) if "Transaction.commit" in e["phase"] and e["op"] == "read_file" and P.path_class(e["path"]) == "hint"), None)
+    if begin is None:
+        return                                   # (the transaction never reached its commit in the probe: nothing to contend)
+    while begin + 1 < len(a0) and not (a0[begin]["op"] == "read_file" and P.path_class(a0[begin]["path"]) == "meta"):
+        begin += 1
+    i = 1 + sum(1 for e in a0[:begin + 1] if yield_filter(e["op"], e["path"], e["phase"]))
+    rest = sum(1 for a in probe["schedule"] if a == "A0") - i          # steps of one attempt after the base read
+    ng = sum(1 for a in probe["schedule"] if a == "G")
+    na = 2 * rest + 6                                                   # the lost attempt + the whole retry
+    combos = [(j, k, m) for j in range(0, na) for k in range(1, ng + 1) for m in (0, 1, 2, 3, 5, 8, 10**6)]
+    if quick and len(combos) > cap:
+        # every j with the whole run inside one gap of the committer is the backbone; the rest is sampled
+        step = max(1, na // (cap // 3))
+        fixed = [(j, ng, 0) for j in range(0, na, step)]
+        others = [c for c in combos if c not in fixed]
+        combos = fixed + ctx.rng.sample(others, max(0, cap - len(fixed)))
+    elif len(combos) > 300:
+        combos = ctx.rng.sample(combos, 300)           # (thorough tier)
+    for j, k, m in combos:
+        # K: step 1 starts the clock actor, steps 2 and 3 perform the jumps
+        seg = [("A0", i), ("K", 10**6), ("A1", 10**6), ("A0", j), ("G", k), ("A0", m), ("G", 10**6), ("A0", 10**6)]
+        yield sched_case(ctx, txns, seg, jumps=jumps)
 
 
 def directed_two_runs(ctx, txns, quick: bool):
@@ -720,28 +877,40 @@ TXSETS = [
     [{"kind": "append", "rows": [{"x": 100}]}, {"kind": "append", "rows": [{"x": 200}]}],
     [{"kind": "adopt"}],                                                    # append_files of a pre-built file, 10 h old
     [{"kind": "append", "rows": [{"x": 100}]}, {"kind": "adopt"}],
+    # contention: the FIRST transaction adopts (or writes and adopts) and loses the OCC race to the second
+    [{"kind": "adopt"}, {"kind": "append", "rows": [{"x": 200}]}],
+    [{"kind": "mixed", "rows": [{"x": 100}]}, {"kind": "append", "rows": [{"x": 200}]}],
 ]
+CONTENDED = (2, 5, 6)                # transaction sets in which transaction 1 can commit under transaction 0
 
 
 def run(ctx) -> None:
     ctx.rule = ("schedules of one or two collection runs (grace 1000 ms / 10 min) with 1-2 transactions (append incl. OCC retry, rollback, "
-                "append_files of a pre-built file 10 h old) "
+                "append_files of a pre-built file 10 h old, append_data + append_files in one transaction; adopting committers that lose the "
+                "OCC race and retry with the collector at every step of the retry) "
                 "and a clock actor that jumps time (5000 ms twice; at every point of a transaction incl. between a marker and its file; "
                 "25 h; four random amounts), at storage-operation granularity; bounded-preemption enumeration + directed families + "
                 "random; distinct = executed schedule")
     ctx.trusted_base += ["harness/lib/sched.py; harness/props/c06.py (virtual time: collector clock, library clock and file mtimes)",
-                         "translator/gen_gcrace.py (collector kernels regenerated from garbage_collector.py, fail-closed)"]
+                         "translator/gen_gcrace.py (collector kernels regenerated from garbage_collector.py, fail-closed)",
+                         "translator/gen_txmarkers.py (marker-list kernels regenerated from transaction.py, fail-closed)"]
     ctx.assumptions += ["collection run shorter than the grace period (runs violating the proviso are not judged)",
                         "markers younger than the abandonment window (runs with an older marker at a marker load are not judged)"]
-    ctx.proofs(THEOREMS, gen_files=["GenGCRace.v"])
+    ctx.proofs(THEOREMS, gen_files=["GenGCRace.v", "GenTxMarkers.v"])
     ctx.allow_axioms([])
     quick = ctx.tier == "quick"
     exprs, metas, bad = [], [], []
     total = judged = gc_gave_up = abandoned = adopt_refused = 0
+    ledger_cases = ledger_lost_max = 0
+    ledger_bad: List[Dict[str, Any]] = []
+    ledger_seen: Dict[Any, Dict[str, Any]] = {}
+    import time as _time
+    secs: Dict[str, float] = {}
     for ti, txns in enumerate(TXSETS):
         if quick and ti == 4:
             continue                                # (append + adopt together: thorough tier)
-        runs = list(explore(ctx, txns, 5000, 2 if quick else 3, (40 if ti < 2 else 25 if ti == 3 else 12) if quick else 900))
+        _t0 = _time.time()
+        runs = list(explore(ctx, txns, 5000, 2 if quick else 3, (40 if ti < 2 else 25 if ti == 3 else 12 if ti < 5 else 4) if quick else 900 if ti < 5 else 150))
         if ti == 0 or not quick:
             runs += list(directed(ctx, txns, quick))
         elif ti == 3:
@@ -749,6 +918,8 @@ def run(ctx) -> None:
             runs += list(directed(ctx, txns, quick, cap=55))
         if ti == 2:
             runs += list(directed_retry(ctx, txns, quick))
+        if ti in CONTENDED:
+            runs += list(directed_contended(ctx, txns, quick, cap=12 if ti == 2 else 40 if ti == 5 else 24))
         if ti == 0:
             runs += list(directed_two_runs(ctx, txns, quick))
             runs += list(directed_delayed_flip(ctx, txns, quick))
@@ -760,10 +931,11 @@ def run(ctx) -> None:
             for who in range(len(txns)):
                 if txns[who]["kind"] == "append":
                     runs += list(directed_slow_steps(ctx, txns, quick, who))
-        runs += list(random_two_runs(ctx, txns, 8 if quick else 120))
-        for k in range(10 if quick else 200):
+        runs += list(random_two_runs(ctx, txns, (8 if ti < 5 else 2) if quick else 120))
+        for k in range((10 if ti < 5 else 3) if quick else 200):
             seed = ctx.rng.randrange(1 << 30)
             runs.append(([("random", seed)], run_case(ctx, txns, lambda sc, seed=seed: S.random_chooser(_r.Random(seed), 0.4), 5000)))
+        secs["+".join(t["kind"] for t in txns)] = round(_time.time() - _t0, 1)
         for dev, out in runs:
             total += 1
             ctx.count(1, (ti, tuple(out["schedule"])))
@@ -771,13 +943,25 @@ def run(ctx) -> None:
             in_proviso = "end" in w and w["end"] - w["start"] < out.get("grace", GRACE)
             judged += 1 if in_proviso else 0
             gc_gave_up += 1 if any(st != "ok" and n in ("G", "H") for n, (st, _d) in out["outcomes"].items()) else 0
-            adopt_refused += 1 if any(st != "ok" and out.get("kinds", {}).get(n) == "adopt" for n, (st, _d) in out["outcomes"].items()) else 0
+            adopt_refused += 1 if any(st != "ok" and out.get("kinds", {}).get(n) in ADOPTING for n, (st, _d) in out["outcomes"].items()) else 0
             why = oracle(out)
             if why:
                 cls = ("referenced-file-deleted" if why.startswith("files referenced") else "table-unreadable" if why.startswith("table unreadable")
                        else "deadlock" if why.startswith("deadlock") else "actor-raised")
                 ctx.violation(f"gc-race:{'+'.join(t['kind'] for t in txns)}:{cls}", why,
                               {"txns": txns, "deviations": list(dev), "schedule": out["schedule"], "age_jump": 5000})
+            if not out["deadlock"]:
+                # every transaction of the run against its marker ledger (whatever the collection did)
+                for i in range(len(txns)):
+                    levs, lnc, obs = project_ledger(out, f"A{i}")
+                    ledger_cases += 1
+                    if lnc:
+                        ledger_bad.append({"txns": txns, "schedule": out["schedule"], "nonconforming": lnc})
+                        continue
+                    cut = levs.index("XCommit") + 1 if "XCommit" in levs else len(levs)
+                    ledger_seen.setdefault((tuple(levs), cut, obs["held_at_flip"], obs["held_at_end"], obs["ended"], obs["lost"]),
+                                           {"txns": txns, "schedule": out["schedule"], "actor": f"A{i}"})
+                    ledger_lost_max = max(ledger_lost_max, obs["lost"])
             if not in_proviso:
                 continue
             abandoned += 1 if outside_abandonment(out) else 0
@@ -788,6 +972,7 @@ def run(ctx) -> None:
             exprs.append(model_expr(evs, nfiles))
             metas.append((txns, dev, out, evs))
     ctx.stats["schedules"] = total
+    ctx.stats["seconds_running_schedules_per_transaction_set"] = secs
     ctx.stats["runs_within_proviso"] = judged
     ctx.stats["runs_in_which_a_collection_gave_up"] = gc_gave_up     # GarbageCollectionAborted (pointer moved under it): fail closed
     ctx.stats["runs_in_which_an_adoption_was_refused"] = adopt_refused     # append_files: collection in progress / orphan already collected
@@ -805,6 +990,36 @@ def run(ctx) -> None:
         t, d, o, e = metas[len(metas) // 2]
         ctx.sample({"txns": t, "schedule": o["schedule"], "model_events": e})
     ctx.correspondence("gc-race-trace", judged, bad)
+    # the marker ledger: the model must accept every transaction's log, hold as many markers at the pointer flip and at the end
+    # as the transaction really does on storage, count the same lost attempts, end in the same phase, and never see bare payload
+    keys = list(ledger_seen)
+    lex: List[str] = []
+    for (levs, cut, _hf, _he, _en, _lo) in keys:
+        lex.append(ledger_expr(list(levs[:cut])))
+        lex.append(ledger_expr(list(levs)))
+    try:
+        lvals = coqbuild.coq_eval(REQ_LEDGER, lex, chunk=60) if lex else []
+    except RuntimeError as e:
+        ctx.proof_problems.append("ledger evaluation failed: " + str(e)[:800])
+        lvals = []
+    for n, key in enumerate(keys):
+        if 2 * n + 1 >= len(lvals):
+            break
+        levs, cut, held_flip, held_end, ended, lost = key
+        where = ledger_seen[key]
+        (ok1, (lost1, (nm1, (bare1, _ph1)))), (ok2, (lost2, (nm2, (bare2, ph2)))) = lvals[2 * n], lvals[2 * n + 1]
+        if ok1 != 1 or ok2 != 1:
+            ledger_bad.append(dict(where, rejected_event_index=lost2 if ok2 != 1 else lost1, events=list(levs)))
+            continue
+        want_phase = {"finish": 2, "rollback": 3}.get(ended, 1 if "XCommit" in levs else 0)
+        if (held_flip is not None and nm1 != held_flip) or bare1 != 0 or bare2 != 0 or lost2 != lost or ph2 != want_phase \
+                or (ended is not None and nm2 != held_end):
+            ledger_bad.append(dict(where, events=list(levs), model={"markers_at_flip": nm1, "markers_at_end": nm2, "bare": bare2, "lost": lost2, "phase": ph2},
+                                   implementation={"held_at_flip": held_flip, "held_at_end": held_end, "lost": lost, "ended": ended}))
+    ctx.stats["ledger_transactions"] = ledger_cases
+    ctx.stats["ledger_distinct_histories"] = len(keys)
+    ctx.stats["ledger_most_lost_attempts_in_one_transaction"] = ledger_lost_max
+    ctx.correspondence("tx-marker-ledger", ledger_cases, ledger_bad)
 
 
 def replay(ctx, payload) -> int:
